@@ -16,6 +16,7 @@ from vmc import space
 date = datetime.date
 
 FAMILIES = ("nested", "inherit", "generic", "mutual", "formats")
+LATE = "late"      # parent defined first; the subclass is defined by an operation of the history (C13)
 
 
 def dialects():
@@ -93,6 +94,12 @@ def source(family, mode, support, config_dialect=None):
         mb = f"@dataclass\nclass MB(DataClassDictMixin):\n    a: Optional[MA] = None\n    d: date = date(2020, 5, 6)\n{cfg}"
         chunks = [ma, mb]
         roles = ["MA", "MB"]
+    elif family == "late":
+        c0 = (f"@dataclass\nclass C0(DataClassDictMixin):\n    d: date\n    o: Optional[int] = None\n"
+              f"    al: int = field(default=3, metadata=field_options(alias='AL'))\n{cfg}")
+        c = "@dataclass\nclass C(C0):\n    x: int = 5\n    dd: Optional[date] = None\n"
+        chunks = [c0, c]
+        roles = ["C0", "C"]
     elif family == "formats":
         f = (f"@dataclass\nclass F(DataClassORJSONMixin, DataClassMessagePackMixin):\n    d: date\n    b: bytes\n"
              f"    i: Optional[{q('Inner')}] = None\n{cfg}")
@@ -115,14 +122,19 @@ class Family:
         ns.update(date=date, DataClassORJSONMixin=DataClassORJSONMixin, DataClassMessagePackMixin=DataClassMessagePackMixin)
         ns.update({k: v for k, v in dialects().items() if v is not None})
         self.chunks, self.roles = source(family, mode, support, config_dialect)
-        for ch in self.chunks:
+        self.pending = self.chunks[len(self.chunks) - defer:] if defer else []
+        for ch in self.chunks[:len(self.chunks) - defer]:
             self.ctx.run(ch)
+
+    def define(self):
+        """Execute the next deferred class definition."""
+        self.ctx.run(self.pending.pop(0))
 
     def cls(self, role):
         return self.ctx.ns[role]
 
     def classes(self):
-        out = {r: self.ctx.ns[r] for r in self.roles}
+        out = {r: self.ctx.ns[r] for r in self.roles if r in self.ctx.ns}
         if "Inner" in self.ctx.ns:
             out["Inner"] = self.ctx.ns["Inner"]
         return out
@@ -137,6 +149,8 @@ class Family:
             return ns["H"](i=ns["Inner"](date(2021, 3, 4)), d=date(2020, 1, 2), o=None)
         if role == "C0":
             return ns["C0"](d=date(2020, 1, 2), o=None)
+        if role == "C" and self.family == "late":
+            return ns["C"](d=date(2020, 1, 2), o=7, x=6, dd=date(2022, 5, 6))
         if role == "C":
             return ns["C"](d=date(2020, 1, 2), o=7, i=ns["Inner"](date(2021, 3, 4), 1))
         if role == "C2":
@@ -175,6 +189,9 @@ def run_op(fam: Family, op, input_value=None):
     D = dialects()[dl]
     kw = {} if D is None else {"dialect": D}
     try:
+        if kind == "define":
+            fam.define()
+            return ("ok", "defined")
         if kind.startswith("to_"):
             out = getattr(fam.instance(role), kind)(**kw)
             return ("ok", normalise(out))
